@@ -179,8 +179,14 @@ class CubicBezier(ArcLengthMixin, Segment):
             return sorted([x for x in roots if x >= 0 and x <= 1])
 
         sd = math.sqrt(discriminant)
-        u1 = cuberoot(sd - q2)
-        v1 = cuberoot(sd + q2)
+        # u1 * v1 == p / 3: take the cube root that does not cancel and divide
+        # for the other one (sd - q2 and sd + q2 are never both small)
+        if q2 < 0:
+            u1 = cuberoot(sd - q2)
+            v1 = p3 / u1
+        else:
+            v1 = cuberoot(sd + q2)
+            u1 = p3 / v1
         root1 = u1 - v1 - a / 3
         return [x for x in [root1] if x >= 0 and x <= 1]
 
